@@ -1,6 +1,6 @@
 """C11 - content negotiation and media-handler resolution follow RFC 9110 precedence; never a stale handler."""
 PROP = 'C11'
-LEAN_MODULES = ['FalconModel.Handlers', 'FalconModel.HandlersRule', 'FalconModel.MediaTypeProofs']
+LEAN_MODULES = ['FalconModel.Handlers', 'FalconModel.HandlersRule', 'FalconModel.MediaTypeProofs', 'FalconModel.RequestMedia', 'FalconModel.RequestMediaProofs']
 DRIVERS = ['mhdriver']
 THEOREMS = [
     # falcon/media/handlers.py: the memoising resolver over the mutable mapping (model Mh, the code after F08/F09)
@@ -8,6 +8,9 @@ THEOREMS = [
     'Mh.xrun_coherent', 'Mh.resolve_fresh_x', 'Mh.copy_preserves_mapping', 'Mh.resolve_rule_fresh',
     # the pre-repair `|=` is not coherent (regression witness, by `decide`)
     'Mh.ior_stale_witness',
+    # falcon/request.py + falcon/asgi/request.py: get_media's per-request cache in front of the resolver (model Rq)
+    'Rq.trace_refines_spec', 'Rq.getMedia_fresh', 'Rq.e415_not_cached', 'Rq.getMedia_cached', 'Rq.getMedia_frame',
+    'Rq.getMedia_sim', 'Rq.step_sim', 'Rq.step_inv', 'Rq.run_inv', 'Rq.xstep_data', 'Rq.xrun_data',
     # falcon/util/mediatypes.py (model Mt)
     'Mt.maxScore_ge', 'Mt.maxScore_mem', 'Mt.quality_is_q_of_most_specific', 'Mt.no_matching_range_quality_zero',
     'Mt.bestLoop_spec', 'Mt.bestMatch_never_q0_or_unmatched', 'Mt.bestMatch_is_first_max', 'Mt.malformed_only_value_errors',
@@ -18,6 +21,11 @@ STATEMENTS = {
     'Mh.resolve_rule_fresh': 'resolve_fresh_x instantiated with the concrete rule of Handlers.resolve (missing or */* type -> default type; exact key; else mediatypes.best_match over the keys; else 415) on an object created with an empty memo',
     'Mh.copy_preserves_mapping': 'copy() has exactly the items of the original (also when it is empty) and an empty memo',
     'Mh.ior_stale_witness': 'with the pre-repair |= (memo not cleared) the history [resolve x; |= {x: h}; resolve x] answers the memoised miss although the mapping designates h',
+    'Rq.trace_refines_spec': 'for every history on ONE request (any mutator of the mapping, resolutions by others on the same Handlers object, replacing the Handlers object, changing default_media_type or content_type, get_media with/without default_when_empty) and every behaviour of the handlers, the implementation (resolver memo + per-request cache) produces exactly the outputs of the memo-free specification, in which a get_media that holds no deserialized object and no handler error evaluates the rule on the mapping / default type / content type of that moment',
+    'Rq.getMedia_fresh': 'after any such history, get_media on a request with nothing deserialized and no handler error answers what the CURRENT mapping designates for the current content type and default type: that handler is invoked, or 415',
+    'Rq.e415_not_cached': 'a get_media that answers 415 leaves the request, the mapping and the default type exactly as they were, so the next call resolves again',
+    'Rq.getMedia_cached': 'once a handler has produced the media object, every later get_media returns that object and changes nothing (the documented caching)',
+    'Rq.xstep_data': 'every mutator acts on the items of the mapping like the same operation on a plain dict, independently of the resolver memo',
     'Mt.quality_is_q_of_most_specific': 'when quality() returns q, either no range matches and q = 0, or q is the q of a range whose (type, subtype, exact-params, #matching-params, q) tuple is lexicographically >= that of every other range',
     'Mt.no_matching_range_quality_zero': 'if no media range of the header matches the media type, quality() = 0',
     'Mt.bestMatch_never_q0_or_unmatched': 'a non-empty best_match() result is one of the candidates and its quality is > 0',
@@ -27,6 +35,7 @@ STATEMENTS = {
 TRUSTED = [
     "Python's float() on the q value (the model uses exact decimals in units of 1/10000; syntactically valid floats with exponent/underscore/>4 fraction digits are outside the modelled fragment and go to the oracle only)",
     'functools.lru_cache as a sub-memo of its function (entries are only ever f(args); eviction drops entries) - the shape the Mh model gives the memo',
+    'what a media handler does in deserialize() is a parameter of the Rq model (returns an object / raises MediaNotFoundError / raises another error); the request stream and the handler bodies are not modelled',
     'collections.UserDict / MutableMapping routing update/pop/popitem/clear/setdefault through __setitem__/__delitem__ (observed by the correspondence on every run)',
 ]
 ASSUMPTIONS = [
@@ -34,13 +43,26 @@ ASSUMPTIONS = [
     'the Accept header is split at every comma, also inside a quoted parameter value, and an empty list member is an invalid range (code and documentation of mediatypes; RFC 9110 would keep a quoted comma and skip empty members) - such headers are only required to produce a value or a documented value error',
     'duplicate parameter names inside one range, whitespace around "=", a lone "*" and a quoted value ending in a backslash are outside the exact oracle (robustness oracle + model correspondence only)',
     'handler objects are truthy; keys and content types of the handler histories are str (or None for the content type)',
+    'what a request may remember between get_media() calls is what a handler PRODUCED - the deserialized object (documented: "the result will be cached and returned in subsequent calls") or the error the designated handler raised while consuming the stream; the outcome of the resolution itself (in particular a 415) is not something to remember: every call that has nothing deserialized to return resolves on the current mapping',
+    'a Response adopts options.default_media_type as its content_type at its first rendering; the response histories read resp.content_type right before each call and take that as the content type being resolved',
+    'a header without members is the empty string, i.e. one empty member (an invalid range)',
 ]
 RULE = ('negotiation: Accept headers rendered from a generated AST of 1..5 media ranges (type/subtype/wildcards, 0..2 parameters, bare or quoted values with ; = space " \\ inside, '
         'q in 0..4 digits or invalid, random OWS and parameter-name case, designated-invalid members) x 1..4 candidates, checked through mediatypes.quality/best_match, '
-        'req.client_accepts/client_prefers (WSGI and ASGI Request); plus a junk stream of arbitrary header strings; '
+        'req.client_accepts/client_prefers (WSGI and ASGI Request); '
+        'SIZE mode: headers with 0..40 members (half of the draws from the boundary list 0,1,2,3,7,8,9,15..20,31..34,39,40; 3% from 63..66,100,127..130 = the LRU sizes 64/128 of the code), '
+        'filler members plus an adversarial family / q=0 exclusion / invalid member placed anywhere and half of the time among the last three, 0..40 parameters per range or candidate from 43 names (same boundary list), '
+        'values of 1..4097 characters (boundary lengths 1,2,15..17,31..33,63..65,127..129,255..257,1000,4097; token or quoted with specials), 0..40 (rarely ..130) candidates, same oracles and model; '
+        'plus a junk stream of arbitrary header strings (15% of the structured junk with 0..40 members); '
         'handlers: histories of 1..10 operations (set/delete/update/pop/popitem/clear/copy/|=/setdefault/LRU floods/resolve, a fifth via Request.get_media/Response.render_body) over media-type keys with wildcards and parameters, '
         'exhaustive over a 19-operation alphabet on a 3-type universe (x 3 initial mappings) up to length 3 (quick) / 4 (thorough); '
-        'non-trivial = a matching range/handler was found through the specificity order (not an exact-string hit) or the history mutated the mapping between two resolutions; distinct = distinct input strings / operation lists')
+        'ONE-OBJECT histories: a single falcon.Request / falcon.asgi.Request (get_media(), .media, get_media(default_when_empty=...)) or falcon.Response / falcon.asgi.Response (render_body(), resp.media = ...) called several times while '
+        'between the calls the mapping is changed (item assignment, del, update, |= on options.media_handlers, pop, clear, setdefault), the Handlers object is replaced (a new one, a copy, a whole new options object), '
+        'default_media_type or the content type is changed, or somebody else resolves on the same Handlers object; handlers return / raise MediaNotFoundError / raise another error; half of the random histories start from a mapping that '
+        'cannot resolve the request (first call = 415) and mutation keys are drawn from the ranges that would make it resolvable; exhaustive over a 15-operation alphabet (all sequences containing a call) up to length 3 (quick) / 4 (thorough) '
+        'x 2 initial mappings x 2 content types x both request stacks, random histories of 2..10 operations over the full universe on all four kinds of object; '
+        'non-trivial = a matching range/handler was found through the specificity order (not an exact-string hit) or the history mutated the mapping between two resolutions '
+        '(one-object histories: a call had to resolve after something changed since an earlier call on the same object); distinct = distinct input strings / operation lists')
 PARTIAL = ''
 JOBS = {'quick': 4, 'thorough': 16}
 EXHAUSTIVE = {'quick': False, 'thorough': False}
@@ -49,6 +71,7 @@ EXHAUSTIVE = {'quick': False, 'thorough': False}
 def run(ctx):
     _negotiation(ctx)
     _handlers(ctx)
+    _requests(ctx)
 
 
 def hexs(s):
@@ -152,8 +175,8 @@ def spec_key(r, t):
 def spec_quality(t, ranges):
     """quality of the most specific matching range; among equally specific ones the highest q; 0.0 when none matches.
     Returns 'error' when the media type or any member is designated invalid."""
-    if t.bad is not None or any(r.bad is not None or r.q is None for r in ranges):
-        return 'error'
+    if t.bad is not None or not ranges or any(r.bad is not None or r.q is None for r in ranges):
+        return 'error'           # (a header without members is the empty string = one empty member, see ASSUMPTIONS)
     keyed = [(spec_key(r, t), r.q) for r in ranges]
     keyed = [(k, q) for k, q in keyed if k is not None]
     if not keyed:
@@ -171,6 +194,108 @@ def spec_best(cands, ranges):
         return 'error'
     top = max(qs)
     return qs.index(top) if top > 0 else None
+
+
+# ------------------------------------------------------------------ the SIZE dimension: number of members / parameters / candidates, value lengths
+# Boundary values around every size constant found in the real code: functools.lru_cache() default maxsize 128 (quality,
+# _parse_media_ranges, _parse_media_type/_range), the Handlers resolver LRU of 64, powers of two in between (a "sanity limit"
+# on the number of members / parameters would sit at one of them), and 0 / 1.
+COUNT_EDGES = [0, 1, 2, 3, 7, 8, 9, 15, 16, 17, 18, 19, 20, 31, 32, 33, 34, 39, 40]
+COUNT_BIG = [63, 64, 65, 66, 100, 127, 128, 129, 130]
+LEN_EDGES = [1, 2, 15, 16, 17, 31, 32, 33, 63, 64, 65, 127, 128, 129, 255, 256, 257, 1000, 4097]
+PNAMES_MANY = PNAMES + [f'p{i}' for i in range(40)]
+TOKCHARS = 'abcdefghijklmnopqrstuvwxyzABCDEFGHIJKLMNOPQRSTUVWXYZ0123456789-._+'
+
+
+def pick_count(rnd, lo=0, hi=40, big=0.03):
+    k = rnd.random()
+    if k < big:
+        return max(lo, rnd.choice(COUNT_BIG))
+    if k < 0.5:
+        return max(lo, rnd.choice(COUNT_EDGES))
+    return rnd.randint(lo, hi)
+
+
+def gen_value_long(rnd, quoted_ok=True):
+    """a parameter value: usually one of the short ones, sometimes long (boundary lengths), sometimes quoted with specials inside"""
+    k = rnd.random()
+    if k < 0.78:
+        return rnd.choice(PVALS_TOKEN)
+    if k < 0.88 and quoted_ok:
+        return rnd.choice(PVALS_QUOTED)
+    k = rnd.random()
+    n = rnd.choice(LEN_EDGES[:-2]) if k < 0.55 else rnd.choice(LEN_EDGES[-2:]) if k < 0.58 else rnd.randint(1, 100)
+    c = rnd.choice(TOKCHARS)
+    v = rnd.choice([c * n, (TOKCHARS * (n // len(TOKCHARS) + 1))[:n]])
+    if quoted_ok and rnd.random() < 0.3:
+        # a long value that needs quoting: specials sprinkled into a token
+        base = list(v)
+        for _ in range(rnd.randint(1, 4)):
+            base[rnd.randrange(n)] = rnd.choice(' ;="\\')
+        v = ''.join(base)
+        # a quoted value ending in a backslash is outside the exact oracle (see ASSUMPTIONS)
+        return v[:-1] + 'x' if v.endswith('\\') else v
+    return v
+
+
+def gen_params_many(rnd, n=None, quoted_ok=True):
+    if n is None:
+        n = rnd.choice([0, 0, 0, 1, 1, 2, 3]) if rnd.random() < 0.8 else pick_count(rnd, 0, 20, 0.0)
+    n = min(n, len(PNAMES_MANY))
+    return {name: gen_value_long(rnd, quoted_ok) for name in rnd.sample(PNAMES_MANY, n)}
+
+
+def gen_filler(rnd, i):
+    """a member that is there only to be counted: distinct subtype, sometimes weighted / with parameters"""
+    r = Rng('application', f'x-filler-{i}', gen_params_many(rnd) if rnd.random() < 0.15 else {})
+    if rnd.random() < 0.4:
+        r.qstr, r.q = rnd.choice(Q_VALID)
+    return r
+
+
+def tail_biased_pos(rnd, n):
+    """an insertion position in a list of n members: half of the time among the last three, else anywhere"""
+    if n == 0:
+        return 0
+    return rnd.randint(max(0, n - 2), n) if rnd.random() < 0.5 else rnd.randint(0, n)
+
+
+def gen_long_case(rnd):
+    """(ranges, candidates): a header with 0..40 (rarely up to 130) members in which the members that decide the answer
+    (an adversarial family for one target, an explicit q=0 exclusion, a designated-invalid member) sit anywhere, often at the very end."""
+    n = pick_count(rnd)
+    t0 = Rng(*gen_type(rnd, 0.0), gen_params_many(rnd, quoted_ok=False))
+    fam = []
+    for _ in range(min(n, rnd.choice([0, 1, 1, 2, 2, 3, 4]))):
+        m, s = rnd.choice([(t0.main, t0.sub), (t0.main, t0.sub), (t0.main, '*'), ('*', '*'), ('*', t0.sub)])
+        keep = rnd.choice([0.0, 0.5, 0.9, 1.0])
+        ps = {k: v for k, v in t0.params.items() if rnd.random() < keep}
+        if rnd.random() < 0.2:
+            extra = rnd.choice(PNAMES_MANY)
+            ps[extra] = rnd.choice(PVALS_TOKEN)        # an extraneous parameter, or a conflicting value of a shared one
+        qs, qv = rnd.choice(Q_VALID + [('0', 0.0), ('0.0', 0.0)])
+        fam.append(Rng(m, s, ps, q=qv, qstr=qs) if rnd.random() < 0.8 else Rng(m, s, ps))
+    ranges = [gen_filler(rnd, i) if rnd.random() < 0.75 else gen_range(rnd, 0.0) for i in range(n - len(fam))]
+    for f in fam:
+        ranges.insert(tail_biased_pos(rnd, len(ranges)), f)
+    if ranges and rnd.random() < 0.08:
+        # a designated-invalid member (its position must not matter)
+        k = rnd.random()
+        bad = (Rng(None, None, None, bad=rnd.choice(['nonsense', 'text', 'text;charset=utf-8'])) if k < 0.5 else
+               Rng(*gen_type(rnd), {}, q=None, qstr=rnd.choice(Q_INVALID)))
+        ranges[min(len(ranges) - 1, tail_biased_pos(rnd, len(ranges)))] = bad
+    nc = rnd.choice([1, 1, 2, 2, 3, 4]) if rnd.random() < 0.85 else pick_count(rnd, 0, 40, 0.1)
+    cands = [t0] if nc else []
+    while len(cands) < nc:
+        k = rnd.random()
+        if k < 0.35 and ranges:
+            r = rnd.choice(ranges[-3:] if rnd.random() < 0.5 else ranges)     # a candidate some member names (often one of the last)
+            if r.bad is None and r.main != '*' and r.sub != '*':
+                cands.append(Rng(r.main, r.sub, {k2: v for k2, v in r.params.items() if rnd.random() < 0.8}))
+                continue
+        cands.append(Rng(*gen_type(rnd, 0.1), gen_params_many(rnd, quoted_ok=False) if rnd.random() < 0.3 else {}))
+    rnd.shuffle(cands)
+    return ranges, cands
 
 
 import contextlib  # noqa: E402
@@ -268,6 +393,70 @@ def _negotiation(ctx):
             return falcon.asgi.Request(ft.create_scope(headers={'Accept': accept}), None)
         return falcon.Request(ft.create_environ(headers={'Accept': accept}))
 
+    def exact_case(ranges, cands, mode, ci, glue_p=0.5, budget=None):
+        """One structured case: the oracle answers from the AST, the code and the model get the rendered strings.
+        budget: at most this many header characters are sent to the model for the case (every candidate re-parses the header there);
+        the oracle always judges every candidate."""
+        header = rnd.choice([',', ', ', ' ,', ' , ']).join(render(rnd, r) for r in ranges)
+        cstrs = [render(rnd, c) for c in cands]
+        case = {'accept': header, 'candidates': cstrs, 'ast_ranges': [r.desc() for r in ranges], 'ast_candidates': [c.desc() for c in cands],
+                'members': len(ranges)}
+        safe = model_safe(mt, [header] + cstrs)
+        if safe:
+            sess.case({'mode': mode})
+        nontriv = False
+        spent = 0
+        # quality of every candidate
+        for c, cs in zip(cands, cstrs):
+            want = spec_quality(c, ranges)
+            got = observe(mt.quality, cs, header)
+            if want == 'error':
+                ok = got[0] in ('range', 'type')
+            else:
+                ok = got[0] == 'ok' and isinstance(got[1], float) and abs(got[1] - want) < 1e-12
+                nontriv = nontriv or (want > 0 and cs != header)
+            ctx.oracle(O_Q, ok, None if ok else f'quality({cs!r}, header) = {got}, documented order gives {want}', dict(case, media_type=cs))
+            if safe and (budget is None or spent <= budget):
+                sess.op(f'quality {hexs(cs)} {hexs(header)}', q_reply(got))
+                spent += len(header) + 1
+            ctx.count('quality_' + ('error' if want == 'error' else 'zero' if want == 0 else 'positive'))
+        # best match
+        wantb = spec_best(cands, ranges)
+        gotb = observe(mt.best_match, cstrs, header)
+        if wantb == 'error':
+            ok = gotb[0] in ('range', 'type')
+        else:
+            ok = gotb[0] == 'ok' and gotb[1] == ('' if wantb is None else cstrs[wantb])
+        ctx.oracle(O_B, ok, None if ok else f'best_match = {gotb}, documented order gives {wantb if wantb in (None, "error") else cstrs[wantb]!r}', case)
+        if safe and (budget is None or spent + (len(header) + 1) * len(cstrs) <= 2 * budget):
+            sess.op(f'best {",".join(hexs(c) for c in cstrs) if cstrs else "none"} {hexs(header)}', m_reply(gotb))
+        ctx.count('best_' + ('error' if wantb == 'error' else 'none' if wantb is None else 'found'))
+        # Request glue
+        if rnd.random() < glue_p:
+            asgi = rnd.random() < 0.4
+            req = mkreq(header, asgi)
+            if req.accept == header:
+                why = None
+                for c, cs in zip(cands, cstrs):
+                    want = spec_quality(c, ranges)
+                    exp = (header == cs) or (header == '*/*') or (want != 'error' and want > 0)
+                    g = observe(req.client_accepts, cs)
+                    if g != ('ok', exp):
+                        why = f'client_accepts({cs!r}) = {g}, expected {exp}'
+                expp = None if wantb in (None, 'error') else cstrs[wantb]
+                g = observe(req.client_prefers, cstrs)
+                if g != ('ok', expp):
+                    why = f'client_prefers = {g}, expected {expp!r}'
+                ctx.oracle(O_R, why is None, why, dict(case, asgi=asgi))
+                ctx.count('request_asgi' if asgi else 'request_wsgi')
+        ctx.seen(('x', header, tuple(cstrs)), nontriv)
+        if ci < 3:
+            ctx.sample({'accept': header if len(header) < 400 else header[:400] + '...', 'candidates': cstrs[:6], 'best': gotb})
+        return header, cstrs
+
+    def bucket(n):
+        return '0' if n == 0 else '1-5' if n <= 5 else '6-15' if n <= 15 else '16-17' if n <= 17 else '18-32' if n <= 32 else '33-40' if n <= 40 else '41+'
+
     # ---- exact mode
     for ci in range(ctx.n(40000, 240000)):
         ranges = [gen_range(rnd) for _ in range(rnd.choice([1, 1, 2, 2, 3, 4, 5]))]
@@ -290,58 +479,18 @@ def _negotiation(ctx):
             cands = [Rng(*gen_type(rnd, 0.1), gen_params(rnd)) for _ in range(rnd.randint(1, 4))]
         if rnd.random() < 0.04:
             cands[rnd.randrange(len(cands))] = Rng(None, None, None, bad=rnd.choice(['text', 'json', 'nonsense;v=1']))
-        header = rnd.choice([',', ', ', ' ,', ' , ']).join(render(rnd, r) for r in ranges)
-        cstrs = [render(rnd, c) for c in cands]
-        case = {'accept': header, 'candidates': cstrs, 'ast_ranges': [r.desc() for r in ranges], 'ast_candidates': [c.desc() for c in cands]}
-        safe = model_safe(mt, [header] + cstrs)
-        if safe:
-            sess.case({'mode': 'exact'})
-        nontriv = False
-        # quality of every candidate
-        for c, cs in zip(cands, cstrs):
-            want = spec_quality(c, ranges)
-            got = observe(mt.quality, cs, header)
-            if want == 'error':
-                ok = got[0] in ('range', 'type')
-            else:
-                ok = got[0] == 'ok' and isinstance(got[1], float) and abs(got[1] - want) < 1e-12
-                nontriv = nontriv or (want > 0 and cs != header)
-            ctx.oracle(O_Q, ok, None if ok else f'quality({cs!r}, header) = {got}, documented order gives {want}', dict(case, media_type=cs))
-            if safe:
-                sess.op(f'quality {hexs(cs)} {hexs(header)}', q_reply(got))
-            ctx.count('quality_' + ('error' if want == 'error' else 'zero' if want == 0 else 'positive'))
-        # best match
-        wantb = spec_best(cands, ranges)
-        gotb = observe(mt.best_match, cstrs, header)
-        if wantb == 'error':
-            ok = gotb[0] in ('range', 'type')
-        else:
-            ok = gotb[0] == 'ok' and gotb[1] == ('' if wantb is None else cstrs[wantb])
-        ctx.oracle(O_B, ok, None if ok else f'best_match = {gotb}, documented order gives {wantb if wantb in (None, "error") else cstrs[wantb]!r}', case)
-        if safe:
-            sess.op(f'best {",".join(hexs(c) for c in cstrs)} {hexs(header)}', m_reply(gotb))
-        ctx.count('best_' + ('error' if wantb == 'error' else 'none' if wantb is None else 'found'))
-        # Request glue
-        if rnd.random() < 0.5:
-            asgi = rnd.random() < 0.4
-            req = mkreq(header, asgi)
-            if req.accept == header:
-                why = None
-                for c, cs in zip(cands, cstrs):
-                    want = spec_quality(c, ranges)
-                    exp = (header == cs) or (header == '*/*') or (want != 'error' and want > 0)
-                    g = observe(req.client_accepts, cs)
-                    if g != ('ok', exp):
-                        why = f'client_accepts({cs!r}) = {g}, expected {exp}'
-                expp = None if wantb in (None, 'error') else cstrs[wantb]
-                g = observe(req.client_prefers, cstrs)
-                if g != ('ok', expp):
-                    why = f'client_prefers = {g}, expected {expp!r}'
-                ctx.oracle(O_R, why is None, why, dict(case, asgi=asgi))
-                ctx.count('request_asgi' if asgi else 'request_wsgi')
-        ctx.seen(('x', header, tuple(cstrs)), nontriv)
-        if ci < 3:
-            ctx.sample({'accept': header, 'candidates': cstrs, 'best': gotb})
+        exact_case(ranges, cands, 'exact', ci)
+
+    # ---- size mode: the NUMBER of members / parameters / candidates and the length of values are dimensions of their own
+    for ci in range(ctx.n(6000, 40000)):
+        ranges, cands = gen_long_case(rnd)
+        if cands and rnd.random() < 0.03:
+            cands[rnd.randrange(len(cands))] = Rng(None, None, None, bad=rnd.choice(['text', 'json', 'nonsense;v=1']))
+        header, cstrs = exact_case(ranges, cands, 'size', ci, glue_p=0.35, budget=6000)
+        ctx.count('size_members_' + bucket(len(ranges)))
+        ctx.count('size_candidates_' + bucket(len(cands)))
+        ctx.count('size_max_params_' + bucket(max([len(r.params) for r in ranges + cands if r.bad is None] or [0])))
+        ctx.count('size_header_chars_' + ('<256' if len(header) < 256 else '<1024' if len(header) < 1024 else '<4096' if len(header) < 4096 else '4096+'))
 
     # ---- junk mode: arbitrary strings from the alphabet of the grammar
     ATOMS = ['text', 'application', 'json', 'plain', '*', '/', '/', ';', ';', '=', ',', ',', ' ', '\t', 'q', 'Q', 'q=', 'q=0', 'q=0.5', 'q=1', '0', '.', '5', '1',
@@ -352,7 +501,9 @@ def _negotiation(ctx):
             header = ''.join(rnd.choice(ATOMS) for _ in range(rnd.randint(0, 12)))
         elif k < 0.8:
             # mostly valid header with some corruption / RFC-legal oddities the code treats specially
-            parts = [render(rnd, gen_range(rnd, 0.0)) for _ in range(rnd.randint(1, 3))]
+            nparts = rnd.randint(1, 3) if rnd.random() < 0.85 else pick_count(rnd, 0, 40, 0.03)      # also long lists: the oddity is anywhere in them
+            parts = [render(rnd, gen_range(rnd, 0.0)) for _ in range(nparts)]
+            ctx.count('junk_long_list' if nparts > 15 else 'junk_short_list')
             odd = rnd.choice(['', '*', 'text/plain;v="a,b"', 'text/plain;v="a\\\\"', 'text/plain;v=1;v=2', 'text/plain; q = 0.5', 'Text/Plain',
                               'text/plain;q=1e-1', 'text/plain;q=0.33333', 'text/plain;q=1_0', 'text/plain;q=" 0.5"', 'text/plain;q="0.5"', 'text / plain', 'text/plain;q=+0.5', 'text/plain;q=-0'])
             parts.insert(rnd.randint(0, len(parts)), odd)
@@ -737,6 +888,439 @@ def _handlers(ctx):
     sess.finish()
 
 
+# ------------------------------------------------------------------ third part: histories on ONE request / response object
+
+def make_universe():
+    """keys / content types of the object histories as generated structures, and the rule of the property statement on a plain dict"""
+    def K(main, sub, **ps):
+        return Rng(main, sub, dict(ps))
+    KEYS = [K('application', 'json'), K('application', '*'), K('text', 'plain'), K('text', '*'), K('*', '*'),
+            K('text', 'plain', charset='utf-8'), K('application', 'vnd.x+json'), K('image', 'png'), K('text', 'html', v='1'), K('text', 'html', v='2')]
+    CTS = KEYS + [K('text', 'html'), K('application', 'json', charset='utf-8'), K('text', 'plain', charset='latin-1'), K('image', '*'),
+                  K('application', 'xml'), K('text', 'html', v='1', level='2'),
+                  Rng('text', 'plain', {}, q=0.0, qstr='0'), Rng('text', 'css', {}, q=0.5, qstr='0.5'), Rng(None, None, None, bad='garbage')]
+    rr = __import__('random').Random(0)
+    KSTR = [render(rr, k, plain=True) for k in KEYS]
+    CSTR = [render(rr, c, plain=True) for c in CTS]
+    by_str = dict(zip(KSTR + CSTR, KEYS + CTS))
+
+    def designate(shadow, ct, default):
+        """Which handler id the mapping `shadow` (a plain dict str -> id) designates for content type `ct`: the statement's rule."""
+        if ct is None or ct == '' or ct == '*/*':
+            ct = default
+        if ct in shadow:
+            return shadow[ct]
+        t = by_str[ct]
+        if t.bad is not None:
+            return None
+        best, bq = None, 0.0
+        for k in shadow:
+            q = spec_quality(by_str[k], [t])
+            if q != 'error' and q > bq:
+                best, bq = k, q
+        return None if best is None else shadow[best]
+    return KSTR, CSTR, by_str, designate
+
+
+def _requests(ctx):
+    """Request.get_media() / .media (WSGI and ASGI) and Response.render_body() called SEVERAL times on one object while the handler
+    mapping, the Handlers object, the default media type and the content type change in between."""
+    import asyncio
+    import itertools
+    import falcon
+    import falcon.asgi
+    import falcon.testing as ft
+    from falcon import errors
+    from falcon.media import Handlers, BaseHandler
+    from falcon.request import RequestOptions
+    from falcon.response import ResponseOptions
+    from runner import Hang
+    rnd = ctx.rng
+    KSTR, CSTR, by_str, designate = make_universe()
+    for u in ('text/x-new', 'application/x-new'):
+        m, s_ = u.split('/')
+        by_str[u] = Rng(m, s_, {})
+
+    LOG = []          # (handler id, content type it was called with), in call order
+
+    class Media:
+        """what a handler deserializes: it says which handler made it"""
+        def __init__(s, hid):
+            s.hid = hid
+
+    class NotFound(errors.MediaNotFoundError):
+        def __init__(s, hid):
+            super().__init__('H')
+            s.hid = hid
+
+    class Broken(Exception):
+        def __init__(s, hid):
+            super().__init__(f'H{hid}')
+            s.hid = hid
+
+    class RH(BaseHandler):
+        """A handler that says who it is and records that it was called."""
+        def __init__(s, hid, mode):
+            s.hid, s.mode = hid, mode
+        def deserialize(s, stream, content_type, content_length):
+            LOG.append((s.hid, content_type))
+            if s.mode == 'notfound':
+                raise NotFound(s.hid)
+            if s.mode == 'fails':
+                raise Broken(s.hid)
+            return Media(s.hid)
+        def serialize(s, media, content_type):
+            LOG.append((s.hid, content_type))
+            if s.mode != 'ok':
+                raise Broken(s.hid)
+            return b'H%d' % s.hid
+
+    O_RQ = ('one request object, several get_media() / media calls: a call that has nothing deserialized to return (no media object and no handler error from an earlier call) '
+            'invokes exactly the handler that the CURRENT mapping / Handlers object / default type / content type designate, or raises 415 and remembers nothing; '
+            'a deserialized object (or the error the designated handler raised) is what later calls return')
+    O_RS = ('one response object, several render_body() calls: unless the rendering of the current resp.media is already there, the handler that the CURRENT mapping / '
+            'Handlers object / default type / content type designate serializes it, or 415 is raised and nothing is remembered')
+    sess = ctx.session('Request.get_media histories on one request = Rq model (per-request cache in front of Mh)', 'mhdriver')
+    SENT = object()
+    loop = asyncio.new_event_loop()
+    ids = itertools.count(1)
+
+    def run_async(coro):
+        return loop.run_until_complete(asyncio.wait_for(coro, 20))
+
+    def run_history(stack, init, ct0, default0, ops, meta):
+        """stack: 'wsgi' | 'asgi' | 'resp' | 'aresp'.  init: [(key, mode)]."""
+        is_resp = stack in ('resp', 'aresp')
+        is_async = stack in ('asgi', 'aresp')
+        modes = {}
+
+        def op(line, reply):
+            if not is_resp:
+                sess.op(line, reply)
+
+        def newh(mode):
+            x = RH(next(ids), mode)
+            modes[x.hid] = mode
+            op(f'beh {x.hid} {mode}', 'ok')
+            return x
+
+        def kvs(d):
+            return ','.join(f'{hexs(k)}:{v.hid}' for k, v in d.items()) or '-'
+
+        if not is_resp:
+            sess.case(dict(meta, stack=stack))
+        op('reset', 'ok')
+        objs, shadows = [], []
+
+        def new_handlers(items):
+            d = {k: newh(m) for k, m in items}
+            h = Handlers(d)
+            objs.append(h)
+            shadows.append({k: v.hid for k, v in d.items()})
+            op('new ' + kvs(d), 'ok ' + kvs(h))
+            return len(objs) - 1
+
+        cur = new_handlers(init)
+        default = default0
+        ct = ct0
+        del LOG[:]
+        if is_resp:
+            opts = ResponseOptions()
+            opts.media_handlers = objs[cur]
+            opts.default_media_type = default
+            obj = (falcon.asgi.Response if is_async else falcon.Response)(options=opts)
+            if ct is not None:
+                obj.content_type = ct
+            have_media = False
+        else:
+            opts = RequestOptions()
+            opts.media_handlers = objs[cur]
+            opts.default_media_type = default
+            hdrs = {} if ct is None else {'Content-Type': ct}
+            if is_async:
+                obj = ft.create_asgi_req(options=opts, method='POST', headers=hdrs, body=b'{}')
+            else:
+                env = ft.create_environ(method='POST', headers=hdrs, body='{}')
+                if ct is None:
+                    env.pop('CONTENT_TYPE', None)
+                obj = falcon.Request(env, options=opts)
+            if obj.content_type != ct:
+                obj.content_type = ct
+            op(f"rnew {cur} {hexs(ct or '')} {hexs(default)}", 'ok')
+        why = None
+        cached = None               # None | ('v', object) | ('e', hid, is_not_found)
+        gets = 0
+        fresh_after_change = False  # a call that had to resolve after something changed since an earlier call
+        changed = False
+
+        def call(kind):
+            nonlocal why, cached, gets, fresh_after_change, changed, have_media
+            before = len(LOG)
+            # the content type the object shows right before the call (a response adopts the default type as its content type when it renders)
+            ct_now = obj.content_type if is_resp else ct
+            eff_ct = obj.content_type
+            try:
+                with alarm(3):
+                    if is_resp:
+                        got = run_async(obj.render_body()) if is_async else obj.render_body()
+                    elif kind == 'prop':
+                        got = run_async(obj.media) if is_async else obj.media
+                    elif kind == 'dwe':
+                        got = run_async(obj.get_media(default_when_empty=SENT)) if is_async else obj.get_media(default_when_empty=SENT)
+                    else:
+                        got = run_async(obj.get_media()) if is_async else obj.get_media()
+                if got is SENT:
+                    out = ('dflt',)
+                elif isinstance(got, Media):
+                    out = ('v', got.hid, got)
+                elif is_resp and isinstance(got, bytes) and got[:1] == b'H':
+                    out = ('v', int(got[1:]), got)
+                elif is_resp and got is None:
+                    out = ('nothing',)
+                else:
+                    out = ('other', repr(got)[:60])
+            except falcon.HTTPUnsupportedMediaType:
+                out = ('415',)
+            except (NotFound, Broken) as e:
+                out = ('raised', e.hid, isinstance(e, NotFound))
+            except (Hang, asyncio.TimeoutError):
+                out = ('hang',)
+            except Exception as e:  # noqa
+                out = ('exc', type(e).__name__, str(e)[:80])
+            called = LOG[before:]
+            # ---- the oracle: a direct reading of the statement + the documented caching of what a handler produced
+            if is_resp and not have_media:
+                want_out, want_calls = ('nothing',), []
+            elif cached is not None and cached[0] == 'v':
+                want_out, want_calls = ('v', cached[1].hid if not is_resp else int(cached[1][1:]), cached[1]), []
+            elif cached is not None:
+                want_out = ('dflt',) if (kind == 'dwe' and cached[2]) else ('raised', cached[1], cached[2])
+                want_calls = []
+            else:
+                want = designate(shadows[cur], ct_now, default)
+                if gets and changed:
+                    fresh_after_change = True
+                if want is None:
+                    want_out, want_calls = ('415',), []
+                else:
+                    want_calls = [(want, ct if not is_resp else (ct_now or default))]
+                    mode = modes[want]
+                    if mode == 'ok':
+                        want_out = ('v', want, None)
+                    elif is_resp:
+                        want_out = ('raised', want, False)
+                    elif mode == 'notfound':
+                        want_out = ('dflt',) if kind == 'dwe' else ('raised', want, True)
+                    else:
+                        want_out = ('raised', want, False)
+                    # what the handler produced is what the object may remember
+                    if mode == 'ok':
+                        cached = ('v', out[2]) if out[0] == 'v' else cached
+                    elif not is_resp:
+                        cached = ('e', want, mode == 'notfound')
+            ok = out[:2] == want_out[:2] if out[0] == 'v' else out == want_out
+            if ok and out[0] == 'v' and want_out[2] is not None and out[2] is not want_out[2] and not is_resp:
+                ok = False
+            if ok and is_resp and out[0] == 'v' and want_out[2] is not None and out[2] != want_out[2]:
+                ok = False
+            if ok and called != want_calls:
+                ok = False
+            if not ok:
+                why = why or (f'call #{gets + 1} ({kind}) with content type {ct_now!r}, default {default!r}, current mapping {shadows[cur]} '
+                              f'(handler modes {dict((h, modes[h]) for h in shadows[cur].values())}), remembered {None if cached is None else cached[:1] + tuple(cached[2:]) if cached[0] == "e" else "a deserialized object"}: '
+                              f'got {out[:2] if out[0] == "v" else out} with handler calls {called}, expected {want_out[:2] if want_out[0] == "v" else want_out} with handler calls {want_calls}')
+            if not is_resp:
+                if eff_ct != ct:
+                    why = why or f'req.content_type is {eff_ct!r}, was set to {ct!r}'
+                rep = {'v': lambda: f'v {out[1]}', '415': lambda: '415', 'raised': lambda: f'raised {out[1]}', 'dflt': lambda: 'dflt'}.get(out[0], lambda: 'impl-' + out[0])()
+                op(f"rget {'1' if kind == 'dwe' else '0'}", rep)
+            gets += 1
+            changed = False
+            ctx.count(f'{stack}_call_' + (out[0] if out[0] in ('v', '415', 'raised', 'dflt', 'nothing') else 'other'))
+
+        for o in ops:
+            name = o[0]
+            h, shadow = objs[cur], shadows[cur]
+            ctx.count('objop_' + name)
+            try:
+                if name == 'get':
+                    call(o[1])
+                    if why:
+                        break
+                    continue
+                elif name == 'media':        # response only: resp.media = <new object>
+                    obj.media = {'n': next(ids)}
+                    have_media = True
+                    cached = None
+                elif name == 'set':
+                    x = newh(o[2]); h[o[1]] = x; shadow[o[1]] = x.hid
+                    op(f'set {cur} {hexs(o[1])} {x.hid}', 'ok ' + kvs(h))
+                elif name == 'del':
+                    if o[1] in shadow:
+                        del h[o[1]]; del shadow[o[1]]
+                        op(f'del {cur} {hexs(o[1])}', 'ok ' + kvs(h))
+                elif name == 'pop':
+                    h.pop(o[1], None); shadow.pop(o[1], None)
+                    op(f'pop {cur} {hexs(o[1])}', 'ok ' + kvs(h))
+                elif name == 'clear':
+                    h.clear(); shadow.clear()
+                    op(f'clear {cur}', 'ok ' + kvs(h))
+                elif name in ('update', 'ior'):
+                    d = {k: newh(m) for k, m in o[1]}
+                    if name == 'ior':
+                        # `options.media_handlers |= {...}` (the augmented assignment on the attribute)
+                        opts.media_handlers |= d
+                        if opts.media_handlers is not h:
+                            why = why or '|= rebound options.media_handlers to another object'
+                    else:
+                        h.update(d)
+                    shadow.update({k: v.hid for k, v in d.items()})
+                    op(f'{name} {cur} ' + kvs(d), 'ok ' + kvs(h))
+                elif name == 'setdefault':
+                    x = newh(o[2]); h.setdefault(o[1], x); shadow.setdefault(o[1], x.hid)
+                    op(f'setdefault {cur} {hexs(o[1])} {x.hid}', 'ok ' + kvs(h))
+                elif name == 'replace':      # options.media_handlers = Handlers({...})
+                    cur = new_handlers(o[1])
+                    opts.media_handlers = objs[cur]
+                    op(f'rset handlers {cur}', 'ok')
+                elif name == 'replace_copy':  # options.media_handlers = options.media_handlers.copy()
+                    c = h.copy()
+                    objs.append(c); shadows.append(dict(shadow))
+                    op(f'copy {cur}', 'ok ' + kvs(c))
+                    cur = len(objs) - 1
+                    opts.media_handlers = c
+                    op(f'rset handlers {cur}', 'ok')
+                elif name == 'options':      # a whole new options object on the same request / response
+                    cur = new_handlers(o[1])
+                    default = o[2]
+                    opts = ResponseOptions() if is_resp else RequestOptions()
+                    opts.media_handlers = objs[cur]
+                    opts.default_media_type = default
+                    obj.options = opts
+                    op(f'rset handlers {cur}', 'ok')
+                    op(f'rset default {hexs(default)}', 'ok')
+                elif name == 'default':
+                    default = o[1]
+                    opts.default_media_type = default
+                    op(f'rset default {hexs(default)}', 'ok')
+                elif name == 'ct':
+                    ct = o[1]
+                    obj.content_type = ct
+                    op(f"rset ct {hexs(ct or '')}", 'ok')
+                elif name == 'direct':       # somebody else resolves on the same Handlers object (warms its memo)
+                    want = designate(shadow, o[1], default)
+                    try:
+                        r = h._resolve(o[1], default, False)
+                        got = None if r[0] is None else r[0].hid
+                    except Exception as e:  # noqa
+                        got = f'{type(e).__name__}'
+                    if got != want:
+                        why = why or f'direct resolution of {o[1]!r} gave {got}, the current mapping {shadow} designates {want}'
+                    op(f"resolve {cur} {hexs(o[1] or '')} {hexs(default)} 0", 'none' if got is None else f'h {got}')
+                    continue
+            except Hang:
+                why = why or f'{name} did not return'
+            except Exception as e:  # noqa
+                why = why or f'{name} raised {type(e).__name__}: {e}'
+            changed = True
+            if why:
+                break
+        case = {'stack': {'wsgi': 'falcon.Request', 'asgi': 'falcon.asgi.Request', 'resp': 'falcon.Response', 'aresp': 'falcon.asgi.Response'}[stack],
+                'initial_mapping': [list(i) for i in init], 'content_type': ct0, 'default_media_type': default0, 'ops': [list(map(_plain, o)) for o in ops]}
+        ctx.oracle(O_RS if is_resp else O_RQ, why is None, why, case)
+        ctx.seen((stack, str(init), ct0, default0, str(ops)), fresh_after_change)
+        return case
+
+    # ---- exhaustive small histories: every sequence over the alphabet that contains a call, on both request stacks
+    A = [('get', 'call'), ('get', 'dwe'), ('set', 'text/plain', 'ok'), ('set', 'text/*', 'ok'), ('set', 'application/json', 'ok'), ('del', 'text/plain'), ('del', 'text/*'),
+         ('ior', (('text/plain', 'ok'),)), ('update', (('text/*', 'ok'),)), ('clear',), ('replace', (('text/plain', 'ok'),)), ('default', 'text/plain'),
+         ('ct', None), ('ct', 'text/plain'), ('direct', 'text/plain')]
+    maxlen = 3 if ctx.quick else 4
+    allh = []
+    for L in range(1, maxlen + 1):
+        allh.extend(h for h in itertools.product(A, repeat=L) if any(o[0] == 'get' for o in h))
+    i0, k0 = ctx.shard
+    n = 0
+    for idx, ops in enumerate(allh):
+        if idx % k0 != i0:
+            continue
+        for init in ((), (('application/json', 'ok'),)):
+            for ct0 in ('text/plain', None):
+                for stack in ('wsgi', 'asgi'):
+                    run_history(stack, init, ct0, 'application/json', list(ops), {'mode': 'exhaustive'})
+                    ctx.count('objhistory_exhaustive_' + stack)
+
+    # ---- random histories, 2..10 operations, all four kinds of object
+    MODES = ['ok'] * 6 + ['notfound', 'fails']
+    DEFAULTS = ['application/json', 'application/json', 'text/plain', 'text/html', 'text/x-new']
+
+    def related(ct):
+        """keys that would make `ct` resolvable: the type itself and the ranges above it"""
+        t = by_str.get(ct)
+        if t is None or t.bad is not None:
+            return list(KSTR)
+        out = [k for k in KSTR if spec_quality(by_str[k], [t]) not in ('error', 0.0)]
+        return out or list(KSTR)
+
+    for ci in range(ctx.n(6000, 40000)):
+        stack = rnd.choice(['wsgi', 'wsgi', 'asgi', 'asgi', 'resp', 'aresp'])
+        is_resp = stack in ('resp', 'aresp')
+        ct0 = rnd.choice(CSTR + KSTR + [None, None, '*/*', 'text/x-new', 'application/x-new'])
+        if is_resp and ct0 == '':
+            ct0 = None
+        default0 = rnd.choice(DEFAULTS)
+        pool = related(ct0 if ct0 not in (None, '*/*') else default0)
+        keyp = lambda: rnd.choice(pool) if rnd.random() < 0.6 else rnd.choice(KSTR)   # noqa: E731
+        # half of the histories start from a mapping that cannot resolve the request (the first call is then a 415)
+        init = [(k, rnd.choice(MODES)) for k in rnd.sample(KSTR, rnd.randint(0, 3))]
+        if rnd.random() < 0.5:
+            sh = {}
+            for k, m in init:
+                sh[k] = 1
+                if designate(sh, ct0, default0) is not None:
+                    del sh[k]
+            init = [(k, m) for k, m in init if k in sh]
+        ops = [('media',)] if is_resp else []
+        for _ in range(rnd.randint(2, 10)):
+            r = rnd.random()
+            if r < 0.38:
+                ops.append(('get', 'call' if is_resp else rnd.choice(['call', 'call', 'prop', 'dwe'])))
+            elif r < 0.50:
+                ops.append(('set', keyp(), rnd.choice(MODES)))
+            elif r < 0.56:
+                ops.append(('del', keyp()))
+            elif r < 0.62:
+                ops.append(('update', tuple((k, rnd.choice(MODES)) for k in {keyp() for _ in range(rnd.randint(0, 3))})))
+            elif r < 0.68:
+                ops.append(('ior', tuple((k, rnd.choice(MODES)) for k in {keyp() for _ in range(rnd.randint(0, 3))})))
+            elif r < 0.71:
+                ops.append(('pop', keyp()))
+            elif r < 0.73:
+                ops.append(('clear',))
+            elif r < 0.76:
+                ops.append(('setdefault', keyp(), rnd.choice(MODES)))
+            elif r < 0.82:
+                ops.append(('replace', tuple((k, rnd.choice(MODES)) for k in {keyp() for _ in range(rnd.randint(0, 3))})))
+            elif r < 0.84:
+                ops.append(('replace_copy',))
+            elif r < 0.87:
+                ops.append(('options', tuple((k, rnd.choice(MODES)) for k in {keyp() for _ in range(rnd.randint(0, 2))}), rnd.choice(DEFAULTS)))
+            elif r < 0.91:
+                ops.append(('default', rnd.choice(DEFAULTS)))
+            elif r < 0.95:
+                ops.append(('ct', rnd.choice(CSTR + KSTR + [None, '*/*', 'text/x-new'])))
+            elif r < 0.98:
+                ops.append(('direct', rnd.choice([ct0, ct0, None, 'text/plain'])))
+            elif is_resp:
+                ops.append(('media',))
+        case = run_history(stack, tuple(init), ct0, default0, ops, {'mode': 'random'})
+        ctx.count('objhistory_random_' + stack)
+        if ci < 2:
+            ctx.sample(case)
+    loop.close()
+    sess.finish()
+
+
 def _plain(x):
     return list(x) if isinstance(x, tuple) else x
 
@@ -744,9 +1328,11 @@ def _plain(x):
 LEVEL_TEXT = ('Machine-checked proofs (Lean 4): (1) the media Handlers resolver, modelled as a memoising function over a mutable mapping, returns for every history of '
               'set / delete / update / pop / popitem / clear / setdefault / |= / copy / LRU evictions / resolutions exactly what the uncached rule gives on the CURRENT mapping '
               '(resolve_fresh, resolve_fresh_x; instantiated with the concrete rule exact-key / best_match / default type / 415 in resolve_rule_fresh); copy preserves the mapping; '
+              '(1b) Request.get_media (both stacks) on top of that resolver refines a memo-free specification for every history on one request object: only what a handler produced is remembered, a 415 never is, '
+              'every other call resolves on the current mapping / Handlers object / default type / content type (trace_refines_spec, getMedia_fresh, e415_not_cached); '
               '(2) for the transcription of falcon.util.mediatypes (parse_header with both paths, media type / range parsing, match_score, quality, best_match): quality is the q of a lexicographically '
               'maximal (type, subtype, exact-params, #params, q) match or 0 when nothing matches, best_match is the first candidate of maximal quality and never one of quality 0, and malformed input only yields the two value errors. '
-              'Both models are tied to the real code on every run by differential correspondences (same inputs / operation lines to falcon.util.mediatypes, falcon.media.Handlers and the compiled models), '
+              'Both models are tied to the real code on every run by differential correspondences (same inputs / operation lines to falcon.util.mediatypes, falcon.media.Handlers, falcon.Request / falcon.asgi.Request and the compiled models), '
               'and an independent oracle computed from the generated structure of the header (not from the parser) and from a plain-dict shadow of the mapping decides failing inputs.')
 LEVEL_NOTE = ('Trusted: Lean kernel + standard axioms; the correspondence harness and oracles; float() on q values; lru_cache behaving as a sub-memo. '
               'Case-sensitivity of types and splitting at quoted commas are taken as documented behaviour (see assumptions).')
